@@ -303,7 +303,7 @@ int main()
       out += segs[g];
     }
     writers.clear();
-    std::cout << out << "\n";
+    std::cout << out << "\n" << std::flush;
   }
   return 0;
 }
